@@ -334,6 +334,7 @@ func H_C07_layout() {
 	e, want := vGenEvent(maxFields, maxDepth)
 	l := &JSONLayout{BaseLayout{FileLineLength: 48}}
 	out := l.ToBytes(e)
+	vObserve("line", out)
 	got, ok := vParseJSONLine(out)
 	vAssert(ok, "one-valid-json-object-per-line")
 	if ok {
